@@ -56,13 +56,13 @@ var c09GenCfg = mpclgen.Config{Arrays: true, Structs: true, Funcs: true, Loops: 
 func init() {
 	vrt.Register(&vrt.Prop{
 		ID: "C09", Level: "exploration",
-		Rule: "case = one program (generated, with multiplications wider than each threshold, divisions, constant operands and pass-through outputs; or a shipped lang/math test program) compiled under 14 configurations {prune off/on} x {CircMultArrayTreshold 0,8,16,21,40,1000} x Yao plus {prune off/on} x GMW (with AssignLevels). " +
+		Rule: "case = one program (generated, with multiplications wider than each threshold, divisions, constant operands and pass-through outputs; or a shipped lang/math test program) or a one-operator template `a op b` at one of 30 widths evaluated on all operand pairs (<= 8 bits) or on all edge pairs + 64 carry chains + 64 random pairs) compiled under 14 configurations {prune off/on} x {CircMultArrayTreshold 0,8,16,21,40,1000} x Yao plus {prune off/on} x GMW (with AssignLevels). " +
 			"Oracle: the reference evaluation of every configuration's circuit is identical on the same input vectors (all inputs when <= 10 bits, else 32 boundary/random vectors) and, for generated programs, equal to the reference interpreter. Distinct = hash(program); non-trivial = at least two configurations produced different gate lists.",
 		NumCases: func(t string) int {
 			if t == "thorough" {
-				return 2500
+				return 3600
 			}
-			return 110
+			return 130
 		},
 		CaseTimeout: 6 * time.Minute,
 		Run:         runC09,
@@ -75,6 +75,74 @@ func init() {
 	})
 }
 
+// c09TemplateVectors: all operand pairs up to 8 bits per operand, otherwise
+// every pair of edge operands plus carry-chain and random pairs.
+func c09TemplateVectors(r *vrt.Rng, w int) []*big.Int {
+	var vecs []*big.Int
+	join := func(a, b *big.Int) *big.Int { return new(big.Int).Or(a, new(big.Int).Lsh(b, uint(w))) }
+	if w <= 8 {
+		for v := 0; v < 1<<uint(2*w); v++ {
+			vecs = append(vecs, big.NewInt(int64(v)))
+		}
+		return vecs
+	}
+	one := big.NewInt(1)
+	mod := new(big.Int).Lsh(one, uint(w))
+	max := new(big.Int).Sub(mod, one)
+	half := new(big.Int).Rsh(mod, 1)
+	edges := []*big.Int{new(big.Int), one, big.NewInt(2), big.NewInt(3), max, new(big.Int).Sub(max, one), half, new(big.Int).Sub(half, one), new(big.Int).Add(half, one)}
+	for _, a := range edges {
+		for _, b := range edges {
+			vecs = append(vecs, join(a, b))
+		}
+	}
+	for i := 0; i < 64; i++ {
+		// a carry chain of random length at a random position: ones in a, a one at its foot in b
+		lo := r.Intn(w)
+		n := 1 + r.Intn(w-lo)
+		a := new(big.Int).Lsh(new(big.Int).Sub(new(big.Int).Lsh(one, uint(n)), one), uint(lo))
+		b := new(big.Int).Lsh(one, uint(lo))
+		if r.Bool() {
+			a, b = b, a
+		}
+		if r.Intn(3) == 0 {
+			a.Xor(a, new(big.Int).And(r.Big(w), new(big.Int).Sub(new(big.Int).Lsh(one, uint(lo)), one)))
+		}
+		vecs = append(vecs, join(a, b))
+	}
+	for i := 0; i < 64; i++ {
+		vecs = append(vecs, join(r.Big(w), r.Big(w)))
+	}
+	return vecs
+}
+
+// c09DivClass classifies a wrong result of the template `a / b` or `a % b`
+// (b != 0): the GMW divider is known to return a quotient that is off by
+// at most 3 (C07's Goldschmidt finding); anything else is a different defect.
+func c09DivClass(src string, w int, vec, got, want *big.Int) string {
+	mod := new(big.Int).Lsh(big.NewInt(1), uint(w))
+	mask := new(big.Int).Sub(mod, big.NewInt(1))
+	b := new(big.Int).And(new(big.Int).Rsh(vec, uint(w)), mask)
+	for k := int64(-3); k <= 3; k++ {
+		if k == 0 {
+			continue
+		}
+		if strings.Contains(src, "a / b") {
+			x := new(big.Int).Add(want, big.NewInt(k))
+			if x.And(x, mask).Cmp(got) == 0 {
+				return "quotient-off-by-at-most-3"
+			}
+		} else {
+			x := new(big.Int).Add(want, new(big.Int).Mul(b, big.NewInt(k)))
+			x.Mod(x, mod)
+			if x.Cmp(got) == 0 {
+				return "remainder-of-quotient-off-by-at-most-3"
+			}
+		}
+	}
+	return "wrong-value"
+}
+
 func runC09(cs *vrt.Case) {
 	r := cs.Rng
 	var src, what string
@@ -85,6 +153,33 @@ func runC09(cs *vrt.Case) {
 		f := files[(cs.Idx/10)%len(files)]
 		b, _ := os.ReadFile(f)
 		src, what = string(b), "testsuite "+strings.TrimPrefix(f, "/repo/")
+	} else if cs.Idx%10 == 8 || cs.Idx%10 == 3 {
+		// one operator at one width, small widths exhaustively: the
+		// builders the targets choose differ per width (ripple vs
+		// Kogge-Stone adder, array vs Karatsuba vs Wallace multiplier,
+		// restoring vs Goldschmidt divider)
+		k := cs.Idx / 5
+		ops := []string{"a + b", "a - b", "a * b", "a + b + 1", "b - a - 1", "a < b", "a >= b", "a / b", "a % b", "(a + b) * a", "a * a - b", "a - b + a"}
+		op := ops[k%len(ops)]
+		ws := []int{1, 2, 3, 4, 5, 6, 7, 8, 9, 10, 11, 12, 13, 14, 15, 17, 18, 23, 24, 25, 31, 33, 34, 47, 63, 65, 66, 96, 127, 129}
+		w := ws[(k/len(ops)+k)%len(ws)]
+		ty := "uint"
+		if (k/3)%2 == 1 {
+			ty = "int"
+			if w == 1 {
+				w = 2
+			}
+		}
+		rt := fmt.Sprintf("%s%d", ty, w)
+		if strings.Contains(op, "<") || strings.Contains(op, ">") {
+			rt = "bool"
+		}
+		tsrc := fmt.Sprintf("package main\nfunc main(a, b %s%d) %s {\n\treturn %s\n}\n", ty, w, rt, op)
+		if strings.Contains(op, "/") || strings.Contains(op, "%") {
+			tsrc = fmt.Sprintf("package main\nfunc main(a, b %s%d) %s {\n\tif b == 0 {\n\t\treturn a\n\t}\n\treturn %s\n}\n", ty, w, rt, op)
+		}
+		src, what = tsrc, "template"
+		cs.Count("template_programs", 1)
 	} else {
 		cfg := c09GenCfg
 		if cs.Idx%2 == 1 {
@@ -126,6 +221,8 @@ func runC09(cs *vrt.Case) {
 		for _, v := range vvals {
 			vecs = append(vecs, flattenArgs(v))
 		}
+	} else if what == "template" {
+		vecs = c09TemplateVectors(r, nin/2)
 	} else {
 		vecs, _ = allOrSampled(r, nin, 10, 32)
 	}
@@ -177,8 +274,36 @@ func runC09(cs *vrt.Case) {
 			switch {
 			case !baseOK && prog != nil:
 				key = "C09|baseline-differs-from-semantics" // C03's business, reported here too
-			case cf.target == utils.TargetGMW && hasDiv:
-				key += "|program-with-division"
+			case cf.target == utils.TargetGMW && hasDiv && what == "template":
+				key += "|template-division|" + c09DivClass(src, nin/2, vecs[k], outs[i][k], want[k])
+			case cf.target == utils.TargetGMW && hasDiv && prog != nil:
+				// is the division needed for the mismatch? drop statements
+				// while this vector still shows it under this configuration
+				budget := 300
+				vk := vvals[k]
+				differs := func(src string) bool {
+					if budget <= 0 {
+						return false
+					}
+					budget--
+					c2, err, pan := c09Compile(src, cf, sizes)
+					if err != nil || pan != nil || c2 == nil {
+						return false
+					}
+					o2, err := refc.EvalFlat(c2, []*big.Int{vecs[k]})
+					if err != nil {
+						return false
+					}
+					res, err := prog.Run(vk)
+					return err == nil && o2[0].Cmp(flattenArgs(res)) != 0
+				}
+				prog.Minimise(differs)
+				desc["minimised_program"] = prog.Src
+				if strings.Contains(prog.Src, " / ") || strings.Contains(prog.Src, " % ") {
+					key += "|generated|mismatch-needs-the-division"
+				} else {
+					key += "|generated|mismatch-without-division"
+				}
 			case cf.prune:
 				key += fmt.Sprintf("|prune")
 			default:
